@@ -40,6 +40,19 @@ def fam_segment(ctx, fr_name):
     if st == 'raise':
         ctx.fail('C06:Point.distance raises %s' % exc_sig(l2), repr(l2))
     sq_close(ctx, l2, d2, 'C06:Point.distance')
+    # the measure is a function of the current end points: replace them through item assignment and measure again
+    Cp = R.affine(A, (u, e1), (-t, e3))
+    Dp = R.affine(A, (F(1, 2), e3))
+    for idx, newp, other in ((1, Cp, A), (0, Dp, Cp)):
+        dd = R.norm2(R.vsub(newp, other))
+        ctx.assume(dd >= F(1, 100))
+        st, _ = call(lambda: s.__setitem__(idx, pt(ctx, newp)))
+        if st == 'raise':
+            ctx.fail('C06:Segment[%d] = Point raises %s' % (idx, exc_sig(_)), repr(_))
+        st, l3 = call(s.length)
+        if st == 'raise':
+            ctx.fail('C06:Segment.length raises %s after an end point was replaced' % exc_sig(l3), repr(l3))
+        sq_close(ctx, l3, dd, 'C06:Segment.length after seg[%d] = Point' % idx)
     ctx.outcome('ok')
 
 
